@@ -14,7 +14,7 @@ import (
 func init() {
 	register(&propDef{
 		id: "C01", level: "other", run: runC01,
-		explanation: "Decided clause: no reachable panic site is left unguarded and every reachable loop has a recognised progress argument, for all library functions reachable from the five decoding entry points. (R1) validator x consumer matrix: the accepted set of validateFieldDef is folded exactly over (profile class x base-type byte 0..255 x size 0..255; byte order selects no arm) and every accepted point is held against the arm that will consume it: bytes read <= size (ByteOrder.UintN panics otherwise), reflect setter compatible with the struct field's kind, array sizes a multiple of the element size (else reflect Index runs past the slice), padding >= 0 (else a negative scratch index); definitions are stored only on the validator's success edge; the validator itself never panics for any input. (R2) panic-site census: every explicit panic, index, slice, non-comma-ok assertion and division in the reachable functions is discharged by the interval analysis with guard refinement, by a linear loop invariant proved inductive on every run (the string-array scanner's j + k < size), by a length test of the same slice (constant indices), by range-loop semantics, by a C15/C20 table obligation, by R1, or by one of 7 frozen audited entries with its reason (cursor invariant, copy count, invariant panics, dead default arms); map updates need their make on every path (map-nonnil); anything else is reported. (R3) loop census: every back edge is a range loop, a counted loop with positive step, a progress loop that consumes input or exits on error, or a loop with a proved ranking argument (the string scanner). (R4) fill makes progress or fails. NOT decided: readers violating the io.Reader contract (0, nil forever), panics inside the standard library on valid arguments, memory exhaustion; audited sites are trusted as written; 32-bit targets are examined in the thorough tier only. Also decided: nil-safety of every dereference / interface call / function-value call in the reachable library functions by origin (C01-R2-nil-deref, C01-R2-nil-param: allocation and address origins, dominating nil tests, parameters by call-site fixpoint over the VTA call graph with the exported entry points' parameters as the stated assumption, callee results on the error-free or ok edge, field disciplines init-before-use and set-before-publish, backward path walk for run-time-assigned package pointers); the four explicit panics are decided structurally, none is audited; Time.In never receives a possibly-nil location. ByteOrder.UintN/PutUintN always receive at least N/8 bytes (C01-R2-byteorder-len); a counted loop's counter cannot wrap before reaching its bound. Every reflect.Value method that panics on the zero Value (all but IsValid, Kind, String) has a receiver shown valid by origin (C01-R2-zero-value: constructors and Field/Index results, merges valid under a flag, parameters by call site, results on the error-free edge, IsValid()/flag/found-row tests at the use; parseFileIdMsg by the argument that only the file_id definition just stored can be selected).",
+		explanation: "Decided clause: no reachable panic site is left unguarded and every reachable loop has a recognised progress argument, for all library functions reachable from the five decoding entry points. (R1) validator x consumer matrix: the accepted set of validateFieldDef is folded exactly over (profile class x base-type byte 0..255 x size 0..255; byte order selects no arm) and every accepted point is held against the arm that will consume it: bytes read <= size (ByteOrder.UintN panics otherwise), reflect setter compatible with the struct field's kind, array sizes a multiple of the element size (else reflect Index runs past the slice), padding >= 0 (else a negative scratch index); definitions are stored only on the validator's success edge; the validator itself never panics for any input. (R2) panic-site census: every explicit panic, index, slice, non-comma-ok assertion and division in the reachable functions is discharged by the interval analysis with guard refinement, by a linear loop invariant proved inductive on every run (the string-array scanner's j + k < size), by a length test of the same slice (constant indices), by range-loop semantics, by a C15/C20 table obligation, by R1, or by one of 7 frozen audited entries with its reason (cursor invariant, copy count, invariant panics, dead default arms); map updates need their make on every path (map-nonnil); anything else is reported. (R3) loop census: every back edge is a range loop, a counted loop with positive step, a progress loop that consumes input or exits on error, or a loop with a proved ranking argument (the string scanner). (R4) fill makes progress or fails. NOT decided: readers violating the io.Reader contract (0, nil forever), panics inside the standard library on valid arguments, memory exhaustion; audited sites are trusted as written; 32-bit targets are examined in the thorough tier only. Also decided: nil-safety of every dereference / interface call / function-value call in the reachable library functions by origin (C01-R2-nil-deref, C01-R2-nil-param: allocation and address origins, dominating nil tests, parameters by call-site fixpoint over the VTA call graph with the exported entry points' parameters as the stated assumption, callee results on the error-free or ok edge, field disciplines init-before-use and set-before-publish, backward path walk for run-time-assigned package pointers); the four explicit panics are decided structurally, none is audited; Time.In never receives a possibly-nil location. ByteOrder.UintN/PutUintN always receive at least N/8 bytes (C01-R2-byteorder-len); a counted loop's counter cannot wrap before reaching its bound. Every reflect.Value method that panics on the zero Value (all but IsValid, Kind, String) has a receiver shown valid by origin (C01-R2-zero-value: constructors and Field/Index results, merges valid under a flag, parameters by call site, results on the error-free edge, IsValid()/flag/found-row tests at the use; parseFileIdMsg by the argument that only the file_id definition just stored can be selected). Every error-free return of File.init lies behind a store of a fresh container into msgAdder (C01-R2-msgadder-nonnil/installs-on-success).",
 		trusted:     []string{"evaluator and interval transfer functions", "reflect/encoding-binary panic conditions as documented", "frozen audited sites listed in checker/c01.go, one line of reason each"},
 	})
 }
@@ -621,6 +621,68 @@ func c01GuardDominance(c *Ctx, r *Report, scope []*ssa.Function) {
 		}
 		ok := initCall != nil && dfd != nil && c.errNilDominates(fn, initCall, dfd.Block())
 		r.check(ok, "C01-R2-msgadder-nonnil", "decode/init-before-records", c.pos(fn.Pos()), "records are parsed only after File.init succeeded (msgAdder installed)", "decodeFileData can run without a successful File.init: File.add would invoke a nil msgAdder")
+	}
+	// (a') "File.init succeeded" means a container was installed: every error-free return of File.init is
+	// reached only through a block that stores a non-nil value into msgAdder (with those blocks removed no
+	// such return is reachable from the entry). A file type accepted without a container leaves the nil
+	// interface behind for the first routed message.
+	if fn := c.ssaFn(c.fn(c.fit, "File.init")); fn != nil {
+		inst := map[*ssa.BasicBlock]bool{}
+		for _, b := range fn.Blocks {
+			for _, ins := range b.Instrs {
+				st, isSt := ins.(*ssa.Store)
+				if !isSt {
+					continue
+				}
+				fa, isFA := st.Addr.(*ssa.FieldAddr)
+				if !isFA || !isFieldOf(fa, "File", "msgAdder") {
+					continue
+				}
+				if mi, isMI := st.Val.(*ssa.MakeInterface); isMI {
+					if _, isPtr := mi.X.Type().Underlying().(*types.Pointer); isPtr {
+						if _, fresh := mi.X.(*ssa.Alloc); fresh {
+							inst[b] = true
+						} else if ld, isLd := mi.X.(*ssa.UnOp); isLd {
+							// f.x = new(T); f.msgAdder = f.x : the value loaded from the field stored just before
+							for _, prev := range b.Instrs {
+								if ps, ok := prev.(*ssa.Store); ok && stripAddrs(pathOf(ps.Addr)) == stripAddrs(pathOf(ld.X)) {
+									if _, isAlloc := ps.Val.(*ssa.Alloc); isAlloc {
+										inst[b] = true
+									}
+								}
+							}
+						}
+					}
+				}
+			}
+		}
+		seen := map[*ssa.BasicBlock]bool{}
+		var q []*ssa.BasicBlock
+		if !inst[fn.Blocks[0]] {
+			seen[fn.Blocks[0]] = true
+			q = append(q, fn.Blocks[0])
+		}
+		for len(q) > 0 {
+			b := q[0]
+			q = q[1:]
+			for _, s := range b.Succs {
+				if !seen[s] && !inst[s] {
+					seen[s] = true
+					q = append(q, s)
+				}
+			}
+		}
+		bad := ""
+		nRet := 0
+		for _, ret := range c.successReturns(fn) {
+			nRet++
+			if seen[ret.Block()] {
+				bad = c.pos(ret.Pos())
+			}
+		}
+		r.check(bad == "" && nRet > 0 && len(inst) >= 1, "C01-R2-msgadder-nonnil", "File.init/installs-on-success", c.pos(fn.Pos()), fmt.Sprintf("every error-free return of File.init is behind one of the %d stores of a fresh container into msgAdder", len(inst)), "File.init can return nil at "+bad+" without having installed a container: the first message routed through File.add's default arm calls a nil msgAdder")
+	} else {
+		r.fail("C01-R2-msgadder-nonnil", "File.init/installs-on-success", "", "File.init not found")
 	}
 	if fn := c.ssaFn(c.fn(c.fit, "decoder.parseFileIdMsg")); fn != nil {
 		ok, n := true, 0
